@@ -54,14 +54,19 @@ def replay(case):
     for thr in (0.0, 1e-10):
         if thr == 0.0 and not (fullrank and all(r <= min(X.shape) for r in x.ranks)):
             continue
-        for flags in ('default', 'pre_l', 'pre_r'):
+        for flags in ('default', 'pre_l', 'pre_r', 'pre_lr'):
             xx = x.copy()
             kw = {}
             if flags == 'pre_l':
                 xx = xx.ortho_left(end_index=x.order - 3) if x.order >= 3 else xx
                 kw['ortho_l'] = False
-            if flags == 'pre_r':
-                continue     # the split is before the last core: the right part is a single core, ortho_r has nothing to sweep
+            if flags in ('pre_r', 'pre_lr'):
+                # the right part of the split is the last core: make it right-orthonormal beforehand and switch the sweep off
+                if flags == 'pre_lr':
+                    xx = xx.ortho_left(end_index=x.order - 3) if x.order >= 3 else xx
+                    kw['ortho_l'] = False
+                xx = xx.ortho_right(start_index=x.order - 1, end_index=x.order - 1)
+                kw['ortho_r'] = False
             xval, yval = contract(xx.cores).copy(), contract(y.cores).copy()
             for name, f in (('exact', tdmd.tdmd_exact), ('standard', tdmd.tdmd_standard)):
                 tag = 'tdmd_%s' % name
